@@ -1,8 +1,8 @@
 /-
   C19 — model of konst's Option/Result macros, `try_!`/`try_opt!`, the tuple walker behind
   `try_rebind!`/`rebind_if_ok!`, and `min!`/`max!` with their `_by`/`_by_key` forms.
-  Import-free (core Lean only).  Mirrors /repo at HEAD (after bac3b9b, the F4 repair; the walker
-  as it was before is kept in `Legacy/Rebind.lean`).
+  Import-free (core Lean only).  Mirrors /repo at HEAD (after bac3b9b, the F4 repair — the walker as it
+  was before is kept in `Legacy/Rebind.lean` — and a6790b3, the F19 repair, `Legacy/OptResCapture.lean`).
 
   Conventions
   * `Option<T>` is `Option α`; `Result<T, E>` is `Except ε α` (`Ok` = `.ok`, `Err` = `.error`).
@@ -107,8 +107,9 @@ def optOrElse (o : Option α) (f : Unit → Option α) : Ev (Option α) :=
   | some x => pure (some x)
   | none => Ev.call f ()
 
-/-- `opt_filter!`: `Some(x) if <predicate on &x> => Some(x), _ => None` (arm `|$param| $v` binds
-    `let $param = &x;` and inlines `$v`; arm `$function:path` calls `$function(&x)`) -/
+/-- `opt_filter!`: `Some(x) => if <predicate on &x> { Some(x) } else { None }, None => None` (arm
+    `|$param| $v` binds `let $param = &x;` and inlines `$v`; arm `$function:path` calls `$function(&x)`;
+    exhaustive since a6790b3) -/
 def optFilter (o : Option α) (p : α → Bool) : Ev (Option α) :=
   match o with
   | some x => do
@@ -367,7 +368,7 @@ def tryRebind (u : UserPat) (n : Nat) (annotIsPayloadTy : Bool) (r : Except Int 
       | some ws => .ok ws
       | none => .reject
 
-/-- `rebind_if_ok!{pattern = expr => code}`: `if let Ok(tuple) = expr { <walker> code }` -/
+/-- `rebind_if_ok!{pattern = expr => code}`: `match expr { Ok(tuple) => { <walker> code } Err(_) => {} }` -/
 def rebindIfOk (u : UserPat) (n : Nat) (annotIsPayloadTy : Bool) (r : Except Int (List Int)) : RebindOut :=
   match emitted (rebindIfOkMatches u) u n annotIsPayloadTy with
   | none => .reject
